@@ -390,8 +390,9 @@ type tcase struct {
 	TypeName string `json:"type"`   // the registered type the case derives from
 	Desc     string `json:"desc"`   // what was done to it
 	Neg      bool   `json:"negotiated"`
-	Msize    uint32 `json:"msize,omitempty"`      // negotiated msize (0: unnegotiated)
-	Hex      string `json:"stream_hex,omitempty"` // omitted when large (regenerated from index)
+	Msize    uint32 `json:"msize,omitempty"`       // negotiated msize (0: unnegotiated)
+	First    uint32 `json:"first_msize,omitempty"` // server: a LARGER msize negotiated first, then Msize (0: one negotiation)
+	Hex      string `json:"stream_hex,omitempty"`  // omitted when large (regenerated from index)
 	// client
 	Method  string `json:"method,omitempty"`
 	Version uint32 `json:"version,omitempty"`
@@ -506,8 +507,10 @@ func enumerate(quick bool, want func(idx int) bool, yield func(c *tcase)) int {
 		tier = "quick"
 	}
 	idx := 0
+	first := uint32(0) // set by the loop over limits below
 	emit := func(c tcase) {
 		c.Index, c.Tier = idx, tier
+		c.First = first
 		idx++
 		c.finish()
 		yield(&c)
@@ -532,7 +535,17 @@ func enumerate(quick bool, want func(idx int) bool, yield func(c *tcase)) int {
 				msizes = []uint32{negMsize, 0, 512, 16384}
 			}
 		}
+		// the server side also with the limit reached by negotiating DOWN: the
+		// smaller msize of the second Rversion is the one in force
+		const renegotiated = ^uint32(0)
+		if side == "server" {
+			msizes = append(msizes, renegotiated)
+		}
 		for _, ms := range msizes {
+			first = 0
+			if ms == renegotiated {
+				ms, first = negMsize, 65536
+			}
 			neg := ms != 0
 			lim := (&tcase{Side: side, Neg: neg, Msize: ms}).limit()
 			// second pending call variants (client only)
